@@ -333,3 +333,25 @@ Proof.
   unfold ltrim_current, rtrim_current, trim_current, ltrim, rtrim, trim.
   intros -> -> ->. repeat split; reflexivity.
 Qed.
+
+(* the source at /repo HEAD carries the three repairs (regenerated facts are all [true]): the
+   variant the correspondence follows IS the repaired one.  This lemma stops checking, and the
+   property is reported as no longer shown, if any of the three repairs is lost. *)
+Lemma current_is_repaired_now_lemma :
+  ltrim_current = ltrim_repaired /\ rtrim_current = rtrim_repaired /\ trim_current = trim_repaired.
+Proof. apply ltrim_current_is_repaired_lemma; reflexivity. Qed.
+
+Theorem trim_shift_current_lemma t t' :
+  ltrim_current t = Ok t' ->
+  let d := leftmost t in
+  t_L t' = t_L t - d /\ t_nodes t' = t_nodes t /\
+  t_edges t' = map (shift_edge true d) (t_edges t) /\
+  t_migs t' = map (shift_mig true d) (t_migs t) /\
+  (forall g', In g' (t_migs t') -> 0 <= g_left g') /\
+  t_sites t' = map (shift_site d) (filter (fun s => d <=? s_pos s) (t_sites t)) /\
+  (forall x c p md, edge_at (t_edges t') (x - d) c p md <-> edge_at (t_edges t) x c p md).
+Proof.
+  destruct current_is_repaired_now_lemma as (E & _ & _). rewrite E. intros H d.
+  pose proof (ltrim_repaired_shift_lemma t t' H) as (_ & _ & _ & _ & A5 & A6 & A7 & A8 & A9 & A10 & _ & A12).
+  repeat (split; [assumption|]). exact A12.
+Qed.
